@@ -80,11 +80,14 @@ Sigs == <<  <<>>,
 
 Mk(name, kind, j) ==
     [name |-> name, kind |-> kind, args |-> Sigs[Mod(j, Len(Sigs)) + 1],
-     outcome |-> IF Mod(j, 3) = 2 THEN "err" ELSE "ok"]
+     outcome |-> IF Mod(j, 3) = 2 THEN "err" ELSE "ok",
+     \* the declared response type of a query, and whether it is given explicitly (`resp=`) with an aliased result type (C16)
+     resp |-> IF kind # "query" THEN "" ELSE IF Mod(j, 2) = 0 THEN "QResp" ELSE "QRespB",
+     explicit |-> kind = "query" /\ Mod(j, 4) = 3]
 
-InstMethod(j) == [name |-> NameInstantiate, kind |-> "instantiate", args |-> Sigs[Mod(j, 3) + 1], outcome |-> "ok"]
+InstMethod(j) == [name |-> NameInstantiate, kind |-> "instantiate", args |-> Sigs[Mod(j, 3) + 1], outcome |-> "ok", resp |-> "", explicit |-> FALSE]
 MigMethod(j)  == [name |-> NameMigrate, kind |-> "migrate", args |-> Sigs[Mod(j + 1, 3) + 1],
-                  outcome |-> IF Mod(j, 2) = 0 THEN "ok" ELSE "err"]
+                  outcome |-> IF Mod(j, 2) = 0 THEN "ok" ELSE "err", resp |-> "", explicit |-> FALSE]
 
 (* name j of a group goes to slot (j-1) mod 9: part = slot div 3, kind = slot mod 3 *)
 SlotPart(j) == (Mod(j - 1, 9) \div 3) + 1
@@ -101,7 +104,8 @@ CorpusProg(gi) ==
 
 (* programs in which handlers of different kinds deliberately share names and shapes (C04) *)
 ShareSig == << [n |-> "x", t |-> "u32"] >>
-Sh(name, kind, o) == [name |-> name, kind |-> kind, args |-> ShareSig, outcome |-> o]
+Sh(name, kind, o) == [name |-> name, kind |-> kind, args |-> ShareSig, outcome |-> o,
+                      resp |-> IF kind = "query" THEN "QResp" ELSE "", explicit |-> FALSE]
 Shared1 ==
     [id |-> "S1", family |-> "shared", overrides |-> {},
      parts |-> << [id |-> "i1", methods |-> << Sh(NameFoo, "sudo", "ok"), Sh(NameBar, "exec", "ok") >>],
